@@ -26,11 +26,11 @@ ENTRIES = [
 
 
 def run(ctx):
-    D.rule_dr1(ctx)
-    D.rule_dr2(ctx)
-    D.rule_dr3(ctx)
-    D.rule_dr4(ctx)
-    u1(ctx, ENTRIES, min_functions=30)
+    ctx.do(D.rule_dr1)
+    ctx.do(D.rule_dr2)
+    ctx.do(D.rule_dr3)
+    ctx.do(D.rule_dr4)
+    ctx.do(u1, ENTRIES, min_functions=30)
     ctx.r.assume("that the path visits the vertices along geodesics (arc "
                  "reversal heuristic, radius threshold) needs values and is "
                  "not decided; matplotlib's Arc/Path.arc take degrees "
